@@ -38,11 +38,12 @@ ASSUME CompressedNeverLarger
 ASSUME DuplicatesFree
 ASSUME SingleQuery
 
-VARIABLE i
-Init == i = 0
-Next == i < N /\ i' = i + 1
-Cur == ShapeOf(i % N)
-GrammarAgrees == WellFormed(Cur) => Walk(Cur) = Size(Cur)
-OnlyPathsAndPiCountRead == ReadFromInput(Cur) \subseteq {"path0", "path1", "path2", "path3", "step_path", "public_inputs"}
-Sample == (i % 97 = 0 /\ WellFormed(Cur)) => PrintT("SIZE " \o ToJson([shape |-> Cur, size |-> Size(Cur)]))
+VARIABLES i, cur
+Init == i = 0 /\ cur = ShapeOf(0)
+\* an 8-ary tree over the indices, so that TLC's workers share the lattice; the shape is kept in a
+\* variable (a fully evaluated value)
+Next == \E c \in 1..8 : 8 * i + c < N /\ i' = 8 * i + c /\ cur' = ShapeOf(8 * i + c)
+GrammarAgrees == WellFormed(cur) => Walk(cur) = Size(cur)
+OnlyPathsAndPiCountRead == WellFormed(cur) => ReadFromInput(cur) \subseteq {"path0", "path1", "path2", "path3", "step_path", "public_inputs"}
+Sample == (i % 97 = 0 /\ WellFormed(cur)) => PrintT("SIZE " \o ToJson([shape |-> cur, size |-> Size(cur)]))
 =============================================================================
